@@ -36,6 +36,8 @@ def run_histories(himpl, drv, hists, defects=None, max_runtime_ms=0, tick_us=0, 
                 cs.append("L " + c[1])
             elif c[0] in ("S", "A"):
                 cs.append(c[0])
+            elif c[0] == "E":
+                continue          # implementation only: an expression evaluated the way __EVAL(..) is (see i_eval)
             else:
                 cs.append("%s %d" % (c[0], c[1]))
         mlines.append(cfg_m + "\t" + "@".join(cs))
@@ -58,6 +60,8 @@ def run_histories(himpl, drv, hists, defects=None, max_runtime_ms=0, tick_us=0, 
                 cs.append("L" + next(it))
             elif c[0] in ("S", "A"):
                 cs.append(c[0])
+            elif c[0] == "E":
+                cs.append("E" + V.hx(c[1].encode("latin-1")))
             else:
                 cs.append("%s%d" % (c[0], c[1]))
         ilines.append("%d;%d;%d\t%s" % (max_runtime_ms, tick_us, max_loop, "@".join(cs)))
@@ -66,7 +70,10 @@ def run_histories(himpl, drv, hists, defects=None, max_runtime_ms=0, tick_us=0, 
         f = io.split("\t")
         d["impl_raw"] = io
         if len(f) >= 2 and f[0] not in ("CRASH", "EXCEPTION", "EXIT"):
-            d["i_obs"] = f[0].split("|")
+            allobs = f[0].split("|")
+            # the E observations are kept apart: i_obs lines up with the commands the model knows
+            d["i_eval"] = [o for o in allobs if o.startswith("E")]
+            d["i_obs"] = [o for o in allobs if not o.startswith("E")]
             d["i_times"] = [[int(x) for x in t.split(",") if x] for t in f[1].split("|")] if f[1] else []
         else:
             d["i_obs"] = [io.replace("\t", " ")]
